@@ -29,10 +29,15 @@ def suiteOpener (kvs : List (String × String)) (lines0 : List (String × String
   | none => lines.map fun _ => "bad-op\t-"
   | some ops =>
     let hyst := kvGet kvs "kind" != some "consec"
-    let n := kvNat kvs "n" 10
-    let dur := kvInt kvs "dur" 10000000000
+    let n := if kvNat kvs "n" 10 == 0 then 10 else kvNat kvs "n" 10                       -- unset: 10 buckets …
+    let dur := if kvInt kvs "dur" 10000000000 == 0 then 10000000000 else kvInt kvs "dur" 10000000000   -- … over 10 s
     let w := tdiv dur n
-    let s0 : OState := if hyst then .hystrix (HOpener.new n dur (kvInt kvs "pct" 50) (kvInt kvs "vol" 20)) else .consec { threshold := kvInt kvs "thr" 10 }
+    -- a threshold left unset (0) at construction is the documented default: 50 % of at least 20 requests; 10 consecutive failures
+    let orDefault (v d : Int) : Int := if v == 0 then d else v
+    let pct0 := orDefault (kvInt kvs "pct" 50) 50
+    let vol0 := orDefault (kvInt kvs "vol" 20) 20
+    let thr0 := orDefault (kvInt kvs "thr" 10) 10
+    let s0 : OState := if hyst then .hystrix (HOpener.new n dur pct0 vol0) else .consec { threshold := thr0 }
     let rec outs (s : OState) : List OOp → List String
       | [] => []
       | op :: rest =>
@@ -49,8 +54,8 @@ def suiteOpener (kvs : List (String × String)) (lines0 : List (String × String
         let h' := op :: h
         let s := match op with
           | .should t =>
-            if hyst then (if latest h t then fmtBool (hystrixShould n w (kvInt kvs "pct" 50) (kvInt kvs "vol" 20) h t) else "-")
-            else fmtBool (consecShould (kvInt kvs "thr" 10) h)
+            if hyst then (if latest h t then fmtBool (hystrixShould n w pct0 vol0 h t) else "-")
+            else fmtBool (consecShould thr0 h)
           | _ => "-"
         s :: specs h' rest
     (m.zip (specs [] ops)).map fun (a, b) => a ++ "\t" ++ b
